@@ -333,7 +333,7 @@ def extras(count, flavour):
     if flavour == "c09":
         return {"pre": max(12, count * 18 // 100), "burst": max(9, count * 12 // 100),
                 "twostop": max(8, count * 4 // 100), "pinned": 2 if count <= 500 else 4,
-                "backlog": 2 if count <= 500 else 8}
+                "backlog": 2 if count <= 500 else 8, "rounds": max(8, count * 4 // 100)}
     return {"self": max(12, count * 12 // 100), "rounds": max(8, count * 10 // 100), "teardown": max(8, count * 4 // 100),
             "flood": max(6, count * 2 // 100), "overlap": max(6, count * 2 // 100)}
 
@@ -354,6 +354,8 @@ def gen_scenarios(rng, count, flavour):
         special += [("pre", k) for k in range(ex["pre"])] + [("burst", k) for k in range(ex["burst"])]
         special += [("twostop", k) for k in range(ex["twostop"])] + [("pinned", k) for k in range(ex["pinned"])]
         special += [("backlog", k) for k in range(ex["backlog"])]
+        # 2-3 Systems one after another on ONE thread: exit code, registry and stop fan-out of every later System
+        special += [("rounds", k) for k in range(ex["rounds"])]
     else:
         special += [("self", k) for k in range(ex["self"])] + [("rounds", k) for k in range(ex["rounds"])]
         special += [("teardown", k) for k in range(ex["teardown"])]
